@@ -801,13 +801,23 @@ def feature_matrix(tier):
             cfgs.append((list(sub), "dev"))
     # every subset in both profiles (cfg(debug_assertions)-dependent items can break one profile only)
     rel = [(f, "release") for f, _ in cfgs]
-    return cfgs + rel
+    # ci/test_full.sh also builds and runs the tests of every subset: compile the integration tests and
+    # compile + run the documentation examples of each subset
+    tests = [(f, "tests") for f, _ in cfgs]
+    docs = [(f, "doc") for f, _ in cfgs]
+    return cfgs + rel + tests + docs
 
 
 def cargo_check(features, profile, slot):
+    """profile: dev | release (cargo check --lib), tests (cargo check --tests, dev), doc (cargo test --doc, dev)."""
     tdir = os.path.join(TARGET, "matrix-%d" % slot)
-    cmd = ["cargo", "check", "--offline", "--quiet", "--manifest-path", os.path.join(REPO, "Cargo.toml"),
-           "--target-dir", tdir, "--no-default-features", "--lib"]
+    if profile == "doc":
+        cmd = ["cargo", "test", "--offline", "--quiet", "--doc"]
+    elif profile == "tests":
+        cmd = ["cargo", "check", "--offline", "--quiet", "--tests"]
+    else:
+        cmd = ["cargo", "check", "--offline", "--quiet", "--lib"]
+    cmd += ["--manifest-path", os.path.join(REPO, "Cargo.toml"), "--target-dir", tdir, "--no-default-features"]
     if features:
         cmd += ["--features", " ".join(features)]
     if profile == "release":
@@ -856,7 +866,7 @@ def check_c16(prop, tier, seed):
         path = os.path.join(REPLAYS, "C16-build-%s.plan" % h)
         with open(path, "w") as f:
             f.write(text)
-        first = next((l for l in out.splitlines() if l.startswith("error")), "compile error")
+        first = next((l for l in out.splitlines() if l.startswith("error") or "FAILED" in l), "compile error")
         v = dict(property="C16", oracle="does-not-compile", api="features=[%s] profile=%s" % (" ".join(features), profile), detail=first)
         k = match_known(v)
         if k is not None:
